@@ -435,6 +435,22 @@ impl core::ops::BitAnd for Choice {
     #[verifier::external_body]
     fn bitand(self, rhs: Choice) -> (r: Choice) ensures r.b == (self.b && rhs.b) { Choice { b: self.b && rhs.b } }
 }
+// (vstd ties `|`, `&`, `!` on a user type to these spec impls; without them every use of the operator has an unprovable precondition)
+impl vstd::std_specs::ops::BitOrSpecImpl<Choice> for Choice {
+    open spec fn obeys_bitor_spec() -> bool { true }
+    open spec fn bitor_req(self, rhs: Choice) -> bool { true }
+    open spec fn bitor_spec(self, rhs: Choice) -> Choice { Choice { b: self.b || rhs.b } }
+}
+impl vstd::std_specs::ops::BitAndSpecImpl<Choice> for Choice {
+    open spec fn obeys_bitand_spec() -> bool { true }
+    open spec fn bitand_req(self, rhs: Choice) -> bool { true }
+    open spec fn bitand_spec(self, rhs: Choice) -> Choice { Choice { b: self.b && rhs.b } }
+}
+impl vstd::std_specs::ops::NotSpecImpl for Choice {
+    open spec fn obeys_not_spec() -> bool { true }
+    open spec fn not_req(self) -> bool { true }
+    open spec fn not_spec(self) -> Choice { Choice { b: !self.b } }
+}
 impl core::ops::Not for Choice {
     type Output = Choice;
     #[verifier::external_body]
